@@ -254,9 +254,10 @@ def run(ctx):
     for r in cli_bad[:1]:
         w = wss[idx[r['ws']]]
         flat = [i for p in r['parts'] for i in p]
-        need = flat + [o['id'] for o in r['ops'] if o['op'] == 'setfile' and o['id'] not in flat]
+        need = flat + [o.get('id', 0) for o in r['ops'] if o['op'] == 'setfile' and o.get('id', 0) not in flat]   # Go omits id 0
         fs = files_of(w, need)
         names = {f['id']: f['name'] for f in fs}
+        oid = lambda o: o.get('id', 0) if o['op'] == 'setfile' else None   # Go omits id 0
         diff = {'incremental_only': [x for x in r['obs'] if x not in (r.get('oneshot') or [])],
                 'one_shot_only': [x for x in (r.get('oneshot') or []) if x not in r['obs']]}
         vlib.violation(ctx, {'kind': 'incremental-vs-one-shot', 'case': {'run': r, 'files': fs}, 'difference': diff,
@@ -267,8 +268,8 @@ def run(ctx):
                                          'run that lints the last file itself WithAggregates + WithIgnoreDirectives(map of before)'
                                          if r['mode'] == 'client-mixed' else 'report-only run WithAggregates + WithIgnoreDirectives')},
                        signature={'kind': 'incremental-vs-one-shot',
-                                  'key': json.dumps([[(o['op'], names.get(o.get('id')) or o.get('name'),
-                                                       next((f['text'] for f in fs if f['id'] == o.get('id')), '')) for o in r['ops']],
+                                  'key': json.dumps([[(o['op'], names.get(oid(o)) or o.get('name'),
+                                                       next((f['text'] for f in fs if f['id'] == oid(o)), '')) for o in r['ops']],
                                                      r['mode']])})
     # (2) incremental (cache.Cache / language server functions) != fresh
     inc_bad = []
